@@ -594,6 +594,15 @@ class InstLayer:
         return '<InstLayer %s>' % self.__name__
 
 
+class FalsyInstLayer(InstLayer):
+    """An instance layer that is false: a layer object that is also the
+    container of its resources (__len__) and still empty while the tests are
+    being collected."""
+
+    def __len__(self):
+        return 0
+
+
 def _hook_beh(hspec):
     if hspec is None:
         return 'ok', []
@@ -681,7 +690,8 @@ def build_layers(modname):
                 d[h] = _class_hook(world, h)
             layer = type(name, tuple(bases) or (object,), d)
         else:
-            layer = InstLayer(name, modname, bases)
+            layer = (FalsyInstLayer if ls.get('falsy') else InstLayer)(
+                name, modname, bases)
             for h in hooks:
                 setattr(layer, h, _inst_hook(world, name, h))
         built[name] = layer
